@@ -132,3 +132,27 @@ fn k_derive_enum_static_positions() {
         core::mem::forget(cx);
     }
 }
+
+// ---- fields whose types share the outer type constructor but differ in generic arguments (Option<u32> next to Option<Gc>): NEEDS_TRACE is
+// the disjunction over every traced field TYPE, generic arguments included, whatever the order of the fields or variants
+#[derive(crate::Collect)] #[collect(no_drop)] struct SameOuter<'gc> { n: Option<u32>, p: Option<G<'gc>> }
+#[derive(crate::Collect)] #[collect(no_drop)] struct SameOuterRev<'gc>(Option<W<'gc>>, Option<u8>, Option<u8>);
+#[derive(crate::Collect)] #[collect(no_drop)] enum SameOuterEnum<'gc> { N(Option<u8>), B(Box<u8>), P(Box<G<'gc>>), Q(Option<G<'gc>>) }
+#[derive(crate::Collect)] #[collect(no_drop)] struct SameOuterPlain { a: Option<u8>, b: Option<u32> }
+#[kani::proof]
+#[kani::unwind(6)]
+fn k_derive_same_outer_type() {
+    unsafe {
+        let cx = Context::new(); let mc = cx.mutation_context();
+        let g = [Gc::new(mc, 0u8), Gc::new(mc, 1u8)]; let p = [a(g[0]), a(g[1])];
+        match kani::any::<u8>() % 4 {
+            0 => { let mut r = Rec::new(); SameOuter { n: Some(1), p: Some(g[0]) }.trace(&mut r); assert!(eq(&r, &[p[0]], &[]), "[trace] Option<Gc> after Option<u32>"); }
+            1 => { let mut r = Rec::new(); SameOuterRev(Some(Gc::downgrade(g[1])), None, Some(2)).trace(&mut r); assert!(eq(&r, &[], &[p[1]]), "[trace] Option<GcWeak> before Option<u8>"); }
+            2 => { let mut r = Rec::new(); SameOuterEnum::Q(Some(g[1])).trace(&mut r); assert!(eq(&r, &[p[1]], &[]), "[trace] enum: Option<Gc> in a later variant than Option<u8>"); }
+            _ => { let mut r = Rec::new(); let b = SameOuterEnum::P(Box::new(g[0])); b.trace(&mut r); assert!(eq(&r, &[p[0]], &[]), "[trace] enum: Box<Gc> in a later variant than Box<u8>"); core::mem::forget(b); }
+        }
+        assert!(nt::<SameOuter>() && nt::<SameOuterRev>() && nt::<SameOuterEnum>(), "[trace] NEEDS_TRACE looks at the whole field type, generic arguments included");
+        assert!(!nt::<SameOuterPlain>(), "[trace] NEEDS_TRACE is false when no field type needs tracing");
+        core::mem::forget(cx);
+    }
+}
